@@ -144,3 +144,25 @@ add("c15_roundtrip", ["C15", "C18"], ["tu/compression_step.c", "$REPO/mtbl/fixed
     assumptions=C15_ASSUME + ["every assert() of compression.c is property-grade here (they never abort)"], replay="c15")
 add("c15_names", ["C15"], ["tu/compression_step.c", "$REPO/mtbl/fixed.c"], "h_c15_names", unwind=18, timeout=300,
     strength="U", functions=["mtbl_compression_type_to_str", "mtbl_compression_type_from_str"], assumptions=["strcasecmp modelled by its definition; candidate strings of <= 7 characters"], replay="c15")
+# ---------------------------------------------------------------- C17 CRC-32C
+C17_SDM = "Intel SDM semantics of crc32b/w/l/q (accumulate the operand's little-endian bytes with the Castagnoli polynomial) as the contract of the four inline-asm helpers"
+for h in ("t0", "tk", "linear", "bytestep", "step4"):
+    add("c17_" + h, ["C17"], ["tu/crc.c"], "h_crc_" + h, unwind=10, timeout=600, strength="U", slice=1,
+        functions=["g_crc_slicing[8][256] (the real tables)"], assumptions=["bitwise reference with polynomial 0x82F63B78 is the definition of CRC-32C (checked against the iSCSI check values in c17_vectors)"])
+add("c17_vectors", ["C17"], ["tu/crc.c"], "h_crc_vectors", unwind=40, timeout=300, strength="U", functions=["my_crc32c_slicing"], assumptions=[])
+C17_UW = {"my_crc32c_slicing.0": 5, "my_crc32c_slicing.1": 7, "my_crc32c_slicing.2": 9, "ref_step.0": 9, "my_crc32c_sse42.0": 7}
+C17_GLUE = ["paper glue (GF(2) algebra, not machine-checked): both implementations only XOR table entries / crc32-instruction results indexed by (state xor data), which is affine in the data by the linearity lemma; agreement with the reference on a pattern and all its single-bit neighbours (c17_basis_*) therefore extends to all contents of that length"]
+for pat in (0, 1, 2):
+    add(f"c17_cross_slicing_p{pat}", ["C17"], ["tu/crc.c"], "h_crc_cross_slicing", unwind=60, unwindset=C17_UW, timeout=600, defines=[f"VG_PAT={pat}"],
+        strength=f"B: every length 0..40, every start alignment, fixed content pattern {pat}", functions=["my_crc32c_slicing"], assumptions=[], glue=C17_GLUE)
+    add(f"c17_cross_sse42_p{pat}", ["C17"], ["tu/crc.c"], "h_crc_cross_sse42", mode="dfcc", unwind=60, unwindset=C17_UW, timeout=600, defines=[f"VG_PAT={pat}"],
+        replace=["my_asm_crc32_u64/my_asm_crc32_u64__spec", "my_asm_crc32_u32/my_asm_crc32_u32__spec", "my_asm_crc32_u16/my_asm_crc32_u16__spec", "my_asm_crc32_u8/my_asm_crc32_u8__spec"],
+        strength=f"B: every length 0..40, every start alignment, fixed content pattern {pat}", functions=["my_crc32c_sse42", "my_crc32c_slicing"], assumptions=[C17_SDM], glue=C17_GLUE, frame_checked=False)
+add("c17_basis_slicing", ["C17"], ["tu/crc.c"], "h_crc_cross_slicing", unwind=60, unwindset=C17_UW, timeout=3000, defines=["VG_PAT=0", "VG_BASIS"], tier="thorough",
+    strength="B: every length 0..40, every start alignment, pattern 0 with any single bit flipped (affine basis)", functions=["my_crc32c_slicing"], assumptions=[], glue=C17_GLUE)
+add("c17_basis_sse42", ["C17"], ["tu/crc.c"], "h_crc_cross_sse42", mode="dfcc", unwind=60, unwindset=C17_UW, timeout=3000, defines=["VG_PAT=0", "VG_BASIS"], tier="thorough",
+    replace=["my_asm_crc32_u64/my_asm_crc32_u64__spec", "my_asm_crc32_u32/my_asm_crc32_u32__spec", "my_asm_crc32_u16/my_asm_crc32_u16__spec", "my_asm_crc32_u8/my_asm_crc32_u8__spec"],
+    strength="B: every length 0..40, every start alignment, pattern 0 with any single bit flipped (affine basis)", functions=["my_crc32c_sse42"], assumptions=[C17_SDM], glue=C17_GLUE, frame_checked=False)
+# dispatch: my_crc32c_runtime_detection selects one of the two; mtbl_crc32c forwards unchanged
+add("c17_dispatch", ["C17", "C14"], ["tu/crc_dispatch.c"], "h_crc_dispatch", unwind=4, timeout=120, strength="U",
+    functions=["my_crc32c_runtime_detection", "my_crc32c_first", "mtbl_crc32c"], assumptions=["cpuid result is arbitrary (either implementation may be selected)"])
